@@ -18,6 +18,7 @@ use rayon::prelude::*;
 use read_fonts::{FontRef, TableProvider};
 use serde_json::{json, Value};
 use skrifa::instance::{LocationRef, Size};
+use skrifa::outline::pen::PathStyle;
 use skrifa::outline::{
     DrawSettings, Engine, GlyphStyles, Hinting, HintingInstance, HintingOptions, OutlineGlyph,
     OutlineGlyphCollection, OutlineGlyphFormat, OutlinePen, SmoothMode, Target,
@@ -121,7 +122,23 @@ fn load_fonts() -> Result<Vec<Loaded>, String> {
 /// options index: 0..=5 hinted, 6 unhinted
 const N_HINTED_OPTS: u8 = 6;
 const OPT_UNHINTED: u8 = 6;
-const OPT_NAMES: [&str; 7] = [
+/// unhinted, `PathStyle::HarfBuzz` (different scaler: HarfBuzzScaler, f32 points)
+const OPT_UNHINTED_HB: u8 = 7;
+const N_OPTS: u8 = 8;
+
+fn is_unhinted(opt: u8) -> bool {
+    opt == OPT_UNHINTED || opt == OPT_UNHINTED_HB
+}
+
+fn style_of(opt: u8) -> PathStyle {
+    if opt == OPT_UNHINTED_HB {
+        PathStyle::HarfBuzz
+    } else {
+        PathStyle::FreeType
+    }
+}
+
+const OPT_NAMES: [&str; 8] = [
     "Interpreter/Mono",
     "Interpreter/Smooth-Normal",
     "Interpreter/Smooth-Lcd",
@@ -129,6 +146,7 @@ const OPT_NAMES: [&str; 7] = [
     "Auto/Mono",
     "AutoFallback/default",
     "Unhinted",
+    "Unhinted-HarfBuzz",
 ];
 const SIZE_NAMES: [&str; 3] = ["8", "16", "unscaled"];
 const LOC_NAMES: [&str; 3] = ["none", "zero-vector", "non-default"];
@@ -207,7 +225,7 @@ fn configs_of(fonts: &[Loaded], fi: usize, with_unhinted: bool) -> Vec<Cfg> {
             continue;
         }
         for &loc in locs {
-            for opt in 0..(if with_unhinted { 7u8 } else { N_HINTED_OPTS }) {
+            for opt in 0..(if with_unhinted { N_OPTS } else { N_HINTED_OPTS }) {
                 v.push(Cfg { font: fi as u8, size, loc, opt });
             }
         }
@@ -265,7 +283,9 @@ impl OutlinePen for RecPen {
 
 enum How<'a> {
     Hinted(&'a HintingInstance),
-    Unhinted(Size, &'a [F2Dot14]),
+    /// hinted instance + HarfBuzz path style: documented to be rejected
+    HintedHarfBuzz(&'a HintingInstance),
+    Unhinted(Size, &'a [F2Dot14], PathStyle),
 }
 
 fn draw(glyph: &OutlineGlyph, how: &How, mem: Option<&mut [u8]>) -> Outcome {
@@ -273,7 +293,8 @@ fn draw(glyph: &OutlineGlyph, how: &How, mem: Option<&mut [u8]>) -> Outcome {
         let mut pen = RecPen::default();
         let settings = match how {
             How::Hinted(inst) => DrawSettings::hinted(inst, false),
-            How::Unhinted(size, coords) => DrawSettings::unhinted(*size, LocationRef::new(coords)),
+            How::HintedHarfBuzz(inst) => DrawSettings::hinted(inst, false).with_path_style(PathStyle::HarfBuzz),
+            How::Unhinted(size, coords, style) => DrawSettings::unhinted(*size, LocationRef::new(coords)).with_path_style(*style),
         }
         .with_memory(mem);
         glyph.draw(settings, &mut pen).map(|m| (pen.0, m))
@@ -462,7 +483,7 @@ fn body(run: &Run, replay: Option<&Value>) {
         // development aid: print what the synthetic font shows under each interpreter configuration
         let fi = fonts.len() - 1;
         for c in configs_of(fonts, fi, true) {
-            let o = if c.opt == OPT_UNHINTED { continue } else { observe_sel(fonts, c, &make_instance(fonts, c)) };
+            let o = if is_unhinted(c.opt) { continue } else { observe_sel(fonts, c, &make_instance(fonts, c)) };
             eprintln!("{:?} -> {:?}", c.json(fonts)["raw"], o.map(|v| v.iter().map(|o| o.brief()).collect::<Vec<_>>()));
         }
     }
@@ -485,6 +506,8 @@ fn body(run: &Run, replay: Option<&Value>) {
     lap("2 buffers", run);
     part3b_draw_order(run, &wide);
     lap("3b draw order", run);
+    part3c_buffer_reuse_across_locations(run, &wide);
+    lap("3c buffer reuse across locations", run);
     run.extra("wall_by_part", json!(timing));
 }
 
@@ -504,7 +527,7 @@ fn part1_wellformed(run: &Run, fonts: &[Loaded]) {
             let mut l = Local::new();
             let f = &fonts[c.font as usize];
             let coords = coords_of(f, c.loc);
-            let inst = if c.opt == OPT_UNHINTED { None } else { Some(make_instance(fonts, c)) };
+            let inst = if is_unhinted(c.opt) { None } else { Some(make_instance(fonts, c)) };
             if let Some(Err(_)) = &inst {
                 run.count("part1_instance_errors", 1);
                 return l;
@@ -514,7 +537,7 @@ fn part1_wellformed(run: &Run, fonts: &[Loaded]) {
                 let Some(gl) = f.outlines.get(GlyphId::new(gid)) else { continue };
                 let how = match &inst {
                     Some(Ok(i)) => How::Hinted(i),
-                    _ => How::Unhinted(size_of(c), &coords),
+                    _ => How::Unhinted(size_of(c), &coords, style_of(c.opt)),
                 };
                 let a = draw(&gl, &how, None);
                 let b = draw(&gl, &how, None);
@@ -527,6 +550,20 @@ fn part1_wellformed(run: &Run, fonts: &[Loaded]) {
                         &format!("{} gid {gid}: first {} second {}", f.name, a.brief(), b.brief()),
                         json!({"part": 1, "cfg": c.json(fonts), "gid": gid}),
                     );
+                }
+                if let Some(Ok(i)) = &inst {
+                    // hinted drawing with the HarfBuzz path style is documented to be rejected
+                    for _ in 0..2 {
+                        let h = draw(&gl, &How::HintedHarfBuzz(i), None);
+                        draws += 1;
+                        if h != Outcome::Err("HarfBuzzHintingUnsupported".into()) {
+                            run.violation(
+                                &format!("hinted draw with HarfBuzz path style is not rejected with HarfBuzzHintingUnsupported ({})", OPT_NAMES[c.opt as usize]),
+                                &format!("{} gid {gid} under {}: {}", f.name, c.json(fonts), h.brief()),
+                                json!({"part": "1h", "cfg": c.json(fonts), "gid": gid}),
+                            );
+                        }
+                    }
                 }
                 if f.is_glyf {
                     if let Outcome::Ok { cmds, .. } = &a {
@@ -589,17 +626,17 @@ fn part2_buffers(run: &Run, fonts: &[Loaded]) {
             let mut l = Local::new();
             let f = &fonts[c.font as usize];
             let coords = coords_of(f, c.loc);
-            let inst = if c.opt == OPT_UNHINTED { None } else { Some(make_instance(fonts, c)) };
+            let inst = if is_unhinted(c.opt) { None } else { Some(make_instance(fonts, c)) };
             if let Some(Err(_)) = &inst {
                 return l;
             }
-            let hinting = if c.opt == OPT_UNHINTED { Hinting::None } else { Hinting::Embedded };
+            let hinting = if is_unhinted(c.opt) { Hinting::None } else { Hinting::Embedded };
             let mut draws = 0u64;
             for gid in 0..glyph_limit(f) {
                 let Some(gl) = f.outlines.get(GlyphId::new(gid)) else { continue };
                 let how = match &inst {
                     Some(Ok(i)) => How::Hinted(i),
-                    _ => How::Unhinted(size_of(c), &coords),
+                    _ => How::Unhinted(size_of(c), &coords, style_of(c.opt)),
                 };
                 let reference = draw(&gl, &how, None);
                 let size = gl.draw_memory_size(hinting);
@@ -655,7 +692,7 @@ fn part2_buffers(run: &Run, fonts: &[Loaded]) {
             let f = &fonts[cz.font as usize];
             let cn = Cfg { loc: 0, ..cz };
             let zero = coords_of(f, 1);
-            let (iz, inn) = if cz.opt == OPT_UNHINTED { (None, None) } else { (Some(make_instance(fonts, cz)), Some(make_instance(fonts, cn))) };
+            let (iz, inn) = if is_unhinted(cz.opt) { (None, None) } else { (Some(make_instance(fonts, cz)), Some(make_instance(fonts, cn))) };
             let mut n = 0u64;
             match (&iz, &inn) {
                 (Some(Err(a)), Some(Err(b))) if a == b => return l,
@@ -673,7 +710,7 @@ fn part2_buffers(run: &Run, fonts: &[Loaded]) {
                 let Some(gl) = f.outlines.get(GlyphId::new(gid)) else { continue };
                 let (a, b) = match (&iz, &inn) {
                     (Some(Ok(z)), Some(Ok(nn))) => (draw(&gl, &How::Hinted(z), None), draw(&gl, &How::Hinted(nn), None)),
-                    _ => (draw(&gl, &How::Unhinted(size_of(cz), &zero), None), draw(&gl, &How::Unhinted(size_of(cz), &[]), None)),
+                    _ => (draw(&gl, &How::Unhinted(size_of(cz), &zero, style_of(cz.opt)), None), draw(&gl, &How::Unhinted(size_of(cz), &[], style_of(cz.opt)), None)),
                 };
                 n += 1;
                 let nt = matches!(&b, Outcome::Ok { cmds, .. } if !cmds.is_empty());
@@ -847,7 +884,7 @@ fn part3b_draw_order(run: &Run, fonts: &[Loaded]) {
     run.bound("draw_order_max_glyphs_per_font", json!(max_glyphs));
     let mut cfgs = vec![];
     for (fi, f) in fonts.iter().enumerate() {
-        let opts: &[u8] = if f.extra { &[1, OPT_UNHINTED] } else { &[0, 1, 3, 5, OPT_UNHINTED] };
+        let opts: &[u8] = if f.extra { &[1, OPT_UNHINTED, OPT_UNHINTED_HB] } else { &[0, 1, 3, 5, OPT_UNHINTED, OPT_UNHINTED_HB] };
         for &opt in opts {
             for loc in if f.axes > 0 { vec![0u8, 2] } else { vec![0u8] } {
                 cfgs.push(Cfg { font: fi as u8, size: 1, loc, opt });
@@ -860,14 +897,14 @@ fn part3b_draw_order(run: &Run, fonts: &[Loaded]) {
             let mut l = Local::new();
             let f = &fonts[c.font as usize];
             let coords = coords_of(f, c.loc);
-            let inst = if c.opt == OPT_UNHINTED { None } else { Some(make_instance(fonts, c)) };
+            let inst = if is_unhinted(c.opt) { None } else { Some(make_instance(fonts, c)) };
             if let Some(Err(_)) = &inst {
                 return l;
             }
-            let hinting = if c.opt == OPT_UNHINTED { Hinting::None } else { Hinting::Embedded };
+            let hinting = if is_unhinted(c.opt) { Hinting::None } else { Hinting::Embedded };
             let how = match &inst {
                 Some(Ok(i)) => How::Hinted(i),
-                _ => How::Unhinted(size_of(c), &coords),
+                _ => How::Unhinted(size_of(c), &coords, style_of(c.opt)),
             };
             let n = f.n_glyphs.min(max_glyphs);
             let glyphs: Vec<(u32, OutlineGlyph)> = (0..n).filter_map(|g| f.outlines.get(GlyphId::new(g)).map(|gl| (g, gl))).collect();
@@ -902,6 +939,134 @@ fn part3b_draw_order(run: &Run, fonts: &[Loaded]) {
         })
         .collect();
     merge(run, locals);
+}
+
+// =============================================================================================
+// part 3c: one caller buffer reused across draws at DIFFERENT locations / sizes
+// =============================================================================================
+
+fn reuse_label(opt: u8) -> String {
+    match opt {
+        OPT_UNHINTED => "FreeType path style".into(),
+        OPT_UNHINTED_HB => "HarfBuzz path style".into(),
+        o => format!("hinted {}", OPT_NAMES[o as usize].split('/').next().unwrap()),
+    }
+}
+
+/// History: draw glyph a under (size1, location1) into a caller buffer; then — for hinted options
+/// after reconfiguring the SAME HintingInstance — draw glyph b under (size2, location2) into the same,
+/// now dirty, buffer. Oracle: the second draw equals the draw of b under (size2, location2) with
+/// library-allocated memory (and a fresh instance). Enumerated: variable fonts × options {unhinted
+/// FreeType style, unhinted HarfBuzz style, Interpreter/Mono, Interpreter/Smooth, AutoFallback} ×
+/// all ordered pairs of distinct (size, location) ∈ {8,16,unscaled} × {none, zero, non-default} ×
+/// glyph a ∈ first A glyphs × glyph b ∈ first B glyphs.
+fn one_reuse_history(fonts: &[Loaded], c1: Cfg, c2: Cfg, ga: u32, buf: &mut [u8], off: usize) -> Option<Result<HintingInstance, String>> {
+    // performs the first half (draw a under c1, then reconfigure to c2); leaves `buf` dirty
+    let f = &fonts[c1.font as usize];
+    let gla = f.outlines.get(GlyphId::new(ga))?;
+    let coords1 = coords_of(f, c1.loc);
+    if is_unhinted(c1.opt) {
+        let sa = gla.draw_memory_size(Hinting::None);
+        let _ = draw(&gla, &How::Unhinted(size_of(c1), &coords1, style_of(c1.opt)), Some(&mut buf[off..off + sa]));
+        None
+    } else {
+        let sa = gla.draw_memory_size(Hinting::Embedded);
+        let mut inst = match make_instance(fonts, c1) {
+            Ok(i) => i,
+            Err(e) => return Some(Err(e)),
+        };
+        let _ = draw(&gla, &How::Hinted(&inst), Some(&mut buf[off..off + sa]));
+        Some(reconfigure(fonts, &mut inst, c2).map(|_| inst))
+    }
+}
+
+fn part3c_buffer_reuse_across_locations(run: &Run, fonts: &[Loaded]) {
+    let (na, nb) = run.tier.pick((12u32, 48u32), (32u32, 128u32));
+    run.bound("buffer_reuse_across_locations", json!({"glyphs_a": na, "glyphs_b": nb, "options": ["Unhinted", "Unhinted-HarfBuzz", "Interpreter/Mono", "Interpreter/Smooth-Normal", "AutoFallback/default"], "sizes_x_locations": 9}));
+    // tasks: (font, option, first configuration)
+    let mut tasks: Vec<Cfg> = vec![];
+    for (fi, f) in fonts.iter().enumerate() {
+        if f.axes == 0 {
+            continue;
+        }
+        for opt in [OPT_UNHINTED, OPT_UNHINTED_HB, 0, 1, 5] {
+            if !is_unhinted(opt) && !f.is_glyf {
+                continue; // caller memory is only used for glyf outlines
+            }
+            for size in 0..3u8 {
+                for loc in 0..3u8 {
+                    tasks.push(Cfg { font: fi as u8, size, loc, opt });
+                }
+            }
+        }
+    }
+    let locals: Vec<Local> = tasks
+        .par_iter()
+        .map(|&c1| {
+            let mut l = Local::new();
+            let f = &fonts[c1.font as usize];
+            let hinting = if is_unhinted(c1.opt) { Hinting::None } else { Hinting::Embedded };
+            let glyphs: Vec<(u32, OutlineGlyph)> = (0..f.n_glyphs.min(nb)).filter_map(|g| f.outlines.get(GlyphId::new(g)).map(|gl| (g, gl))).collect();
+            let maxsize = glyphs.iter().map(|(_, gl)| gl.draw_memory_size(hinting)).max().unwrap_or(0);
+            let mut buf = vec![0u8; maxsize + 8];
+            let off = (8 - buf.as_ptr() as usize % 8) % 8;
+            let mut snapshot = vec![0u8; buf.len()];
+            let mut cnt = 0u64;
+            for size2 in 0..3u8 {
+                for loc2 in 0..3u8 {
+                    let c2 = Cfg { size: size2, loc: loc2, ..c1 };
+                    if c2 == c1 {
+                        continue; // same configuration: that is part 3b
+                    }
+                    let coords2 = coords_of(f, c2.loc);
+                    // references for b under c2: fresh instance, library-allocated memory
+                    let fresh_inst = if is_unhinted(c2.opt) { None } else { Some(make_instance(fonts, c2)) };
+                    let reference: Vec<Outcome> = glyphs
+                        .iter()
+                        .map(|(_, gl)| match &fresh_inst {
+                            None => draw(gl, &How::Unhinted(size_of(c2), &coords2, style_of(c2.opt)), None),
+                            Some(Ok(i)) => draw(gl, &How::Hinted(i), None),
+                            Some(Err(e)) => Outcome::Err(e.clone()),
+                        })
+                        .collect();
+                    for (ga, _) in glyphs.iter().take(na as usize) {
+                        buf.fill(0);
+                        let reused = one_reuse_history(fonts, c1, c2, *ga, &mut buf, off);
+                        snapshot.copy_from_slice(&buf);
+                        for (ib, (gb, glb)) in glyphs.iter().enumerate() {
+                            // restore the buffer to exactly its content after the first draw
+                            buf.copy_from_slice(&snapshot);
+                            let sb = glb.draw_memory_size(hinting);
+                            let got = match &reused {
+                                None => draw(glb, &How::Unhinted(size_of(c2), &coords2, style_of(c2.opt)), Some(&mut buf[off..off + sb])),
+                                Some(Ok(i)) => draw(glb, &How::Hinted(i), Some(&mut buf[off..off + sb])),
+                                Some(Err(e)) => Outcome::Err(e.clone()),
+                            };
+                            cnt += 1;
+                            let nt = matches!(&reference[ib], Outcome::Ok { cmds, .. } if !cmds.is_empty());
+                            l.add(digest_of(&("p3c", c1, c2, ga, gb, &got)), nt);
+                            if got != reference[ib] {
+                                let class = if got.is_ok() || !reference[ib].is_ok() { "different stream" } else { "failure" };
+                                run.violation(
+                                    &format!("draw with reused caller memory ({}): {class} after a draw at another location", reuse_label(c1.opt)),
+                                    &format!("{}: gid {ga} under {} then gid {gb} under {} through one caller buffer: {} vs fresh-buffer draw {}", f.name, c1.json(fonts), c2.json(fonts), got.brief(), reference[ib].brief()),
+                                    json!({"part": "3c", "cfg": c1.json(fonts), "cfg2": c2.json(fonts), "before": ga, "gid": gb}),
+                                );
+                            }
+                        }
+                    }
+                }
+            }
+            run.evals(cnt);
+            run.trans(2 * cnt);
+            run.count("part3c_reuse_histories", cnt);
+            l
+        })
+        .collect();
+    merge(run, locals);
+    if let Some(t) = tasks.get(tasks.len() / 2) {
+        run.sample(json!({"part": "3c buffer reuse across locations", "first_configuration": t.json(fonts), "second": "every other (size, location) of the same font and option"}));
+    }
 }
 
 // =============================================================================================
@@ -1266,6 +1431,56 @@ fn replay_case(run: &Run, fonts: &[Loaded], case: &Value) {
                 report_history(run, fonts, &h, &first_diff(&got, &fresh), cloned);
             }
         }
+        "3c" => {
+            let c1 = Cfg::from_raw(&case["cfg"]["raw"]);
+            let c2 = Cfg::from_raw(&case["cfg2"]["raw"]);
+            let ga = case["before"].as_u64().unwrap() as u32;
+            let gb = case["gid"].as_u64().unwrap() as u32;
+            let f = &fonts[c1.font as usize];
+            let hinting = if is_unhinted(c1.opt) { Hinting::None } else { Hinting::Embedded };
+            let glb = f.outlines.get(GlyphId::new(gb)).unwrap();
+            let coords2 = coords_of(f, c2.loc);
+            let reference = if is_unhinted(c2.opt) {
+                draw(&glb, &How::Unhinted(size_of(c2), &coords2, style_of(c2.opt)), None)
+            } else {
+                match make_instance(fonts, c2) {
+                    Ok(i) => draw(&glb, &How::Hinted(&i), None),
+                    Err(e) => Outcome::Err(e),
+                }
+            };
+            let maxsize = (0..f.n_glyphs).filter_map(|g| f.outlines.get(GlyphId::new(g))).map(|g| g.draw_memory_size(hinting)).max().unwrap_or(0);
+            let mut buf = vec![0u8; maxsize + 8];
+            let off = (8 - buf.as_ptr() as usize % 8) % 8;
+            let reused = one_reuse_history(fonts, c1, c2, ga, &mut buf, off);
+            let sb = glb.draw_memory_size(hinting);
+            let got = match &reused {
+                None => draw(&glb, &How::Unhinted(size_of(c2), &coords2, style_of(c2.opt)), Some(&mut buf[off..off + sb])),
+                Some(Ok(i)) => draw(&glb, &How::Hinted(i), Some(&mut buf[off..off + sb])),
+                Some(Err(e)) => Outcome::Err(e.clone()),
+            };
+            println!("reused buffer: {}", got.brief());
+            println!("fresh buffer:  {}", reference.brief());
+            if got != reference {
+                let class = if got.is_ok() || !reference.is_ok() { "different stream" } else { "failure" };
+                run.violation(
+                    &format!("draw with reused caller memory ({}): {class} after a draw at another location", reuse_label(c1.opt)),
+                    &format!("{} vs {}", got.brief(), reference.brief()),
+                    case.clone(),
+                );
+            }
+        }
+        "1h" => {
+            let c = Cfg::from_raw(&case["cfg"]["raw"]);
+            let gid = case["gid"].as_u64().unwrap_or(0) as u32;
+            let f = &fonts[c.font as usize];
+            if let (Ok(i), Some(gl)) = (make_instance(fonts, c), f.outlines.get(GlyphId::new(gid))) {
+                let h = draw(&gl, &How::HintedHarfBuzz(&i), None);
+                println!("hinted + HarfBuzz: {}", h.brief());
+                if h != Outcome::Err("HarfBuzzHintingUnsupported".into()) {
+                    run.violation("replayed: hinted draw with HarfBuzz path style is not rejected", &h.brief(), case.clone());
+                }
+            }
+        }
         "4b" => {
             // sampling pass: re-run it for that font; it may or may not hit the same execution again
             let n_f = fonts.iter().position(|f| f.extra).unwrap_or(fonts.len());
@@ -1301,19 +1516,19 @@ fn replay_case(run: &Run, fonts: &[Loaded], case: &Value) {
             let gid = case["gid"].as_u64().unwrap_or(0) as u32;
             let f = &fonts[c.font as usize];
             let coords = coords_of(f, c.loc);
-            let inst = if c.opt == OPT_UNHINTED { None } else { Some(make_instance(fonts, c)) };
+            let inst = if is_unhinted(c.opt) { None } else { Some(make_instance(fonts, c)) };
             let how = match &inst {
                 Some(Ok(i)) => How::Hinted(i),
                 Some(Err(e)) => {
                     println!("instance error {e}");
                     return;
                 }
-                None => How::Unhinted(size_of(c), &coords),
+                None => How::Unhinted(size_of(c), &coords, style_of(c.opt)),
             };
             let Some(gl) = f.outlines.get(GlyphId::new(gid)) else { return };
             let reference = draw(&gl, &how, None);
             println!("reference: {}", reference.brief());
-            let hinting = if c.opt == OPT_UNHINTED { Hinting::None } else { Hinting::Embedded };
+            let hinting = if is_unhinted(c.opt) { Hinting::None } else { Hinting::Embedded };
             let got = match part {
                 "1" => {
                     if let Outcome::Ok { cmds, .. } = &reference {
@@ -1333,8 +1548,8 @@ fn replay_case(run: &Run, fonts: &[Loaded], case: &Value) {
                 "2z" => {
                     let cn = Cfg { loc: 0, ..c };
                     match make_instance(fonts, cn) {
-                        Ok(i) if c.opt != OPT_UNHINTED => draw(&gl, &How::Hinted(&i), None),
-                        _ => draw(&gl, &How::Unhinted(size_of(c), &[]), None),
+                        Ok(i) if !is_unhinted(c.opt) => draw(&gl, &How::Hinted(&i), None),
+                        _ => draw(&gl, &How::Unhinted(size_of(c), &[], style_of(c.opt)), None),
                     }
                 }
                 _ => {
